@@ -66,6 +66,17 @@ def run(ctx):
                                       meta={"affine": True, "flags": c04.flags_of(text, mp, es["out"]), "syms": syms, "mapping": mp}))
     execlib.evaluate(cases, "c02")
     c04.report_misaligned(ctx, misaligned, cases)
+    # T-val: the certified nest validator (C01) on the partitioned nest + the static side conditions of the partition
+    # theorems (same step and level names for every tensor holding the rank, footer merges exactly the levels)
+    from props import c01
+    plain_cases = [c for c in cases if not c.meta.get("affine")]
+    who = c01.certify(ctx, plain_cases, stats, allow_partition=True)
+    for c in set(c for c, _, _, _ in who if not c.certified):
+        same = [d for d in plain_cases if d.text == c.text]
+        if all(d.result["status"] == "RAN" and d.result["out"] == "OK" for d in same):
+            ctx.violation({"kind": "validator-rejected", "take_in_sum_selected_lacks_rank": specgen.take_selected_lacks_rank(c.spec.structs[0])},
+                          "the certified nest validator rejects the partitioned loop nest / update statement read off the emitted program; "
+                          "executions on %d inputs agree with the oracle" % len(same), dict(c.replay(), nest=c.nest), no_input=True)
     bad = 0
     for c in cases:
         r = c.result
